@@ -70,7 +70,7 @@ def scc_task(n, perm, fold, fixed):
     bad.append(unwind_guard(vm))
     encoded = sorted(vm.encoded)
     loops = {('%s:%d' % k): v for k, v in vm.stats['loops'].items()}
-    d = Decider()
+    d = Decider(timeout_ms=1800000)
     e2 = ematrix(n, fixed)
     reach = oracles.closure(e2, n)
     want = [b_and(reach[i][j], reach[j][i]) for (i, j) in pairs]
@@ -146,8 +146,10 @@ def reach_task(n, fold, what):
     if fold:
         enable_tt(names)
         start_lemma_log(SEED)
-    vm = VM(GRAPH_MODS, max_unroll=n + 1, check_unroll=False)
-    vm.bounds = {'DiGraph.get_reachable_set_from': n + 1}
+    # code-derived bound: every node enters the work list at most once and the start set holds nodes only, so the loop body runs
+    # at most n times; the guard of an (n+1)-th iteration is an unwinding assertion in the query
+    vm = VM(GRAPH_MODS, max_unroll=n, check_unroll=False)
+    vm.bounds = {'DiGraph.get_reachable_set_from': n}
     ctx, fr = harness_ctx(vm)
     e = ematrix(n, {})
     g = ctx.call(G.DiGraph, [], {'V': range(n), 'E': GSeq([(e[i][j], (i, j)) for i in range(n) for j in range(n)])})
@@ -229,7 +231,7 @@ def reach_task(n, fold, what):
     t1 = time.time()
     encoded = sorted(vm.encoded)
     loops = {('%s:%d' % k): v for k, v in vm.stats['loops'].items()}
-    d = Decider()
+    d = Decider(timeout_ms=1800000)
     e2 = ematrix(n, {})
     x2 = [var('x_%d' % i) for i in range(n + 1)]
     if what == 'reach':
